@@ -5,9 +5,9 @@ import gen, gen_spec
 IMPL_MODULE = "spec_impl"
 RULE = ("bounded-exhaustive strings over class-representative alphabets (one representative per character class the patterns distinguish, incl. the four "
         "IGNORECASE confusables, a non-ASCII letter and digit, U+00A0, newline, '_', upper case); word stems continued by every 2-letter tail over the "
-        "letters of the pre/post/dev words; all 29 whitespace code points and their neighbours in 10 positions; a code-point sweep (quick: U+0000-30FF, "
-        "thorough: every non-surrogate code point in two of them) through 4-6 templates + generated/mutated specifiers and versions; acceptance and stored "
-        "operator/text compared with the scanner model; clause-inside-requirement law on the implementation; non-trivial = accepted; the exhaustive "
+        "letters of the pre/post/dev words; all 29 whitespace code points and their neighbours in 10 positions; '(' ')' '>' in the specifier alphabet; a code-point sweep (quick: U+0000-30FF, "
+        "thorough: every non-surrogate code point in one of them) through 4-6 templates + generated/mutated specifiers and versions; acceptance and stored "
+        "operator/text compared with the scanner model; clause-inside-requirement law on the implementation (names from a pool; plain, spaced, parenthesised and after-extras forms; mutations with parentheses, brackets, quotes and all Unicode blanks); non-trivial = accepted; the exhaustive "
         "sub-streams enumerate their finite space completely")
 ALPHA_V = ["1", "0", ".", "a", "r", "c", "-", "+", "!", "v", " ", "p", "ſ", "é", "١", " ", "\n", "*"]
 ALPHA_V0 = list(ALPHA_V)
@@ -18,6 +18,10 @@ WORD_STEMS = ["1.0al", "1.0alph", "1.0be", "1.0bet", "1.0p", "1.0pr", "1.0prev",
               "1.0d", "1.0de", "1.0.PO", "1.0-De", "1.0_aLp", "1.0a1.de", "1.0rc.po"]
 NEAR_WS = [0x1b, 0x20, 0x7f, 0x84, 0x86, 0x9f, 0xa1, 0x180e, 0x1fff, 0x200b, 0x200c, 0x2027, 0x202a, 0x2060, 0x2fff, 0x3001, 0xfeff, 0x1a0]
 ALPHA_S = ["=", "~", "<", "!", "1", ".", "*", "a", "+", " ", "x", ";", "ſ", " "]
+ALPHA_S0 = list(ALPHA_S)
+ALPHA_S = ALPHA_S + [")", ">", "_", "A"]      # follow-up round: the character === text excludes, the remaining operator character, '_', upper case
+REQ_NAMES = ["x", "A", "a1", "Z9", "a-b", "a.b_c", "pkg-name", "N_m.9", "0", "x--y"]
+CLAUSE_MUT = [c for c in gen.MUT_CH if c not in ",;"] + ["(", ")", "(", ")", "[", "]", "'", '"', "@", "A", "_"] + gen.WS_ALL
 
 def streams(rng, tier):
     q = tier == "quick"
@@ -27,15 +31,18 @@ def streams(rng, tier):
     if not q:
         for s in gen.exhaustive(ALPHA_V0, 5):       # length 5 over the 18 original class representatives (as before the alphabet was extended)
             out.append(Case("exh-version", "v.parse", [s]))
-    for s in gen.exhaustive(ALPHA_S, 4 if q else 6):
+    for s in gen.exhaustive(ALPHA_S, 4):
         out.append(Case("exh-specifier", "sp.parse", [s]))
+    if not q:
+        for s in gen.exhaustive(ALPHA_S0, 6):       # length 6 over the 14 original class representatives (as before the alphabet was extended)
+            out.append(Case("exh-specifier", "sp.parse", [s]))
     heads = ["1.0", "1!2", "1.0a", "1.0.post", "1.0-", "1.0.dev", "1.0+a", "v1"]
     for h in heads:
         for t in gen.exhaustive(ALPHA_V, 2):
             out.append(Case("exh-version-tail", "v.parse", [h + t]))
             for op in ("==", "~=", ">", "==="):
                 out.append(Case("exh-specifier-tail", "sp.parse", [op + h + t]))
-    # ---- improvement round (version language): word stems, every whitespace code point and its neighbours, a code-point sweep ----
+    # ---- improvement round (version language): word stems, every whitespace code point and its neighbours, '(' ')' '>' in the specifier alphabet; a code-point sweep ----
     for h in WORD_STEMS:
         for t in gen.exhaustive(ALPHA_W, 2):
             out.append(Case("exh-word-tail", "v.parse", [h + t]))
@@ -45,7 +52,7 @@ def streams(rng, tier):
     cps = list(range(0, 0x3100)) if q else [c for c in range(0x110000) if not 0xD800 <= c <= 0xDFFF]
     for k, tpl in enumerate(["1.0%s", "1.0+%s", "%s1", "1.0.p%sst", "1%s0", "1.0a%s"]):
         if q and k >= 4: break
-        for c in (cps if k < 2 else range(0, 0x3100)):      # thorough: the first two templates over every code point
+        for c in (cps if k < 1 else range(0, 0x3100)):      # thorough: the first template over every code point
             out.append(Case("sweep-codepoint", "v.parse", [tpl.replace("%s", chr(c))]))
     for tpl in (["1.%s"] if q else ["1.%s", "%s", "1.0+%s", "1.post%s", "%s!1"]):       # finding D10: beyond int()'s digit limit (the model takes seconds for each)
         out.append(Case("digit-limit", "v.parse", [tpl % ("9" * 4301)]))
@@ -65,6 +72,12 @@ def streams(rng, tier):
         st = s.strip()
         if st and st[0] in "~=!<>" and "," not in st and ";" not in st:
             out.append(Case("law-embedded", "law.sp.embedded", [st], kind="law"))
+            # follow-up round: names from a pool, the clause attached in every way the grammar allows, mutations with parentheses / Unicode blanks
+            st2 = gen.mutate(rng, st, CLAUSE_MUT).strip() if rng.random() < 0.6 else st
+            if st2 and st2[0] in "~=!<>" and "," not in st2 and ";" not in st2:
+                form = rng.choice(["plain", "plain", "space", "paren", "parenx", "extra"])
+                out.append(Case("law-embedded", "law.sp.embedded", [st2, rng.choice(REQ_NAMES), form], kind="law"))
+                if rng.random() < 0.3: out.append(Case("gen-specifier", "sp.parse", [st2]))
         if rng.random() < 0.3:
             v = gen.spell(rng, gen.rand_v(rng))
             if rng.random() < 0.5: v = gen.mutate(rng, v)
